@@ -142,7 +142,11 @@ def run(tier, seed, replay):
     if os.path.exists(obs + ".detail"):
         for d in vlib.read_ndjson(obs + ".detail"):
             detail[d["line"]] = d
-    if not replay:
+    aborted = None
+    if os.path.exists(obs + ".aborted"):
+        aborted = open(obs + ".aborted").read().strip()
+        v.assumptions.append("run cut short: " + aborted)
+    if not replay and not aborted:
         want = reps * (counts["msg"] + counts["wire"] + counts["val"]) + counts["req"] + 4 * reps * counts["vc"]
         got = sum(1 for r in rows if r["k"] != "fuzz")
         if got != want:
@@ -154,10 +158,21 @@ def run(tier, seed, replay):
         if key not in first:
             first[key] = i
             uniq.append((i, r))
-    uobs = os.path.join(out, "obs_unique.ndjson")
-    vlib.write_ndjson(uobs, [r for _, r in uniq])
-    fails, mres = vlib.run_monitor("CodecMon", "CodecMon.cfg", uobs, timeout=1500, heap_gb=8)
-    v.add_tlc("CodecMon", mres)
+    # (three TLC instances side by side, each on a third of the log: the judgement is per line)
+    from concurrent.futures import ThreadPoolExecutor
+    nchunks = 3 if len(uniq) > 30000 else 1
+    size = (len(uniq) + nchunks - 1) // nchunks
+    chunks = []
+    for n in range(nchunks):
+        path = os.path.join(out, "obs_unique_%d.ndjson" % n)
+        vlib.write_ndjson(path, [r for _, r in uniq[n * size:(n + 1) * size]])
+        chunks.append((n * size, path))
+    with ThreadPoolExecutor(max_workers=nchunks) as ex:
+        results = list(ex.map(lambda ch: vlib.run_monitor("CodecMon", "CodecMon.cfg", ch[1], timeout=1500, heap_gb=4), chunks))
+    fails = []
+    for (off, _), (fl, mres) in zip(chunks, results):
+        fails += [{"monfail": f["monfail"], "line": f["line"] + off} for f in fl]
+        v.add_tlc("CodecMon[%d..]" % (off + 1), mres)
     nfz = sum(r["n"] for r in rows if r["k"] == "fuzz")
     v.cov["traces_validated_against_impl"] = len(rows)
     v.cov["evaluations"] = sum(1 for r in rows if r["k"] != "fuzz") + nfz
@@ -167,7 +182,7 @@ def run(tier, seed, replay):
     v.cov["rule"] = ("complete products of the five tables enumerated by TLC (Codec!MsgCaseSet, WireCaseSet, ValCaseSet, ReqCaseSet, VcCaseSet), "
                      "every case run %d time(s) with fresh seeded values; non-trivial = framing other than raw, non-plain strings, edge/lossy/string ids, "
                      "invalid or miscased wire shapes, zero-valued / nested / nil / empty values" % reps)
-    v.cov["exhaustive"] = not replay
+    v.cov["exhaustive"] = not replay and not aborted
     by_kind = {}
     for r in rows:
         by_kind[r["k"]] = by_kind.get(r["k"], 0) + 1
